@@ -109,12 +109,19 @@ func relTo(root, p string) string {
 	return "OUTSIDE:" + p
 }
 
+// uncleanPaths counts the full paths returned by listing calls that are not in clean form (the walk normalises its root
+// explicitly: a path handed back is meant to be usable as a key)
+var uncleanPaths []string
+
 func canonList(root string, l []string, names bool) string {
 	out := make([]string, 0, len(l))
 	for _, x := range l {
 		if names {
 			out = append(out, x)
 		} else {
+			if filepath.Clean(x) != x {
+				uncleanPaths = append(uncleanPaths, x)
+			}
 			out = append(out, relTo(root, x))
 		}
 	}
